@@ -315,7 +315,36 @@ pub fn run_property(prop: &str, tier: &str, units: Vec<Unit>, threads: usize, on
                     eprintln!("MACHINERY: {}", m);
                     exit = exit.max(2);
                 }
-                for v in &r.violations {
+                // lock-order analysis over everything this unit executed: two locks nested in both orders (not all of
+                // the four acquisitions shared) can deadlock two threads - a request that never terminates (C07)
+                let mut extra: Vec<FoundViolation> = vec![];
+                if prop == "C07" {
+                    for (a, ax, b, bx) in &r.lock_edges {
+                        if a == b {
+                            continue;
+                        }
+                        if let Some((_, cx2, _, dx)) = r.lock_edges.iter().find(|(c, _, d, _)| c == b && d == a) {
+                            if *ax || *bx || *cx2 || *dx {
+                                let (x, y) = if a < b { (a, b) } else { (b, a) };
+                                let sig = format!("lock-order-inversion/{}<->{}", x, y);
+                                if !extra.iter().any(|v| v.sig == sig) {
+                                    extra.push(FoundViolation {
+                                        unit: u.name.clone(),
+                                        sig,
+                                        detail: format!("the locks created at {} and {} are acquired nested in both orders ({} held while taking {}, and the reverse): two threads doing that at the same time block each other forever", a, b, a, b),
+                                        choices: vec![],
+                                        kinds: vec![],
+                                        trace: r.lock_edges.iter().map(|e| format!("{}({}) -> {}({})", e.0, if e.1 { "excl" } else { "shared" }, e.2, if e.3 { "excl" } else { "shared" })).collect(),
+                                        cost: 0,
+                                    });
+                                }
+                            }
+                        }
+                    }
+                    p.units.last_mut().map(|u| u["lock_nesting_edges"] = json!(r.lock_edges.iter().map(|e| format!("{} -> {}", e.0, e.2)).collect::<Vec<_>>()));
+                }
+                let r_violations: Vec<FoundViolation> = r.violations.iter().cloned().chain(extra).collect();
+                for v in &r_violations {
                     let path = write_replay(prop, &v.unit, &v.sig, &v.detail, json!({"choices": v.choices, "kinds": v.kinds, "trace": v.trace, "deviation_cost": v.cost}));
                     if let Some(t) = known.is_known(prop, &v.sig) {
                         p.known_hits += 1;
